@@ -261,7 +261,19 @@ class SBool(Sym):
     def implies(self, o):
         return SBool(z3.Implies(self.t, B(o)))
 
-    # python bools are ints in arithmetic: (a > b) - (a < b)
+    # python bools are ints in comparisons and arithmetic: False < True, (a > b) - (a < b)
+    def __lt__(self, o):
+        return SBool(_lift_int(self) < I(o))
+
+    def __le__(self, o):
+        return SBool(_lift_int(self) <= I(o))
+
+    def __gt__(self, o):
+        return SBool(_lift_int(self) > I(o))
+
+    def __ge__(self, o):
+        return SBool(_lift_int(self) >= I(o))
+
     def __sub__(self, o):
         return SInt(_lift_int(self) - I(o))
 
